@@ -36,6 +36,9 @@ type World struct {
 	appDecls      map[string]string
 	appOrder      []string
 
+	errTemplates  []errTemplate
+	TableProblems []string
+
 	ContractFiles []string
 	Unresolved    []string // contract targets that could not be resolved (reported)
 }
@@ -124,6 +127,9 @@ func Load(repoDir, specDir string) (*World, error) {
 		}
 	}
 	if err := w.declareGhosts(); err != nil {
+		return nil, err
+	}
+	if err := w.genErrorTables(); err != nil {
 		return nil, err
 	}
 	w.resolveContracts()
